@@ -114,6 +114,11 @@ class SimKernel:
                 choices.draw('sched', pct_span, 'pct_point')
                 for _ in range(pct_depth))
         self._pct_low = 0
+        # E5: python-engineio is trusted; no pre-emption is injected while
+        # the innermost non-simulator frame is engine.io's own code (its
+        # threads still interleave with everybody else's at every other
+        # point, and whenever they block)
+        self.trusted_prefixes = ('engineio',)
 
     # ---- bookkeeping -----------------------------------------------------
     def log(self, *items):
@@ -181,11 +186,22 @@ class SimKernel:
             raise SimAbort()
         if self.policy == 'fifo':
             return
+        if self.trusted_prefixes and self._in_trusted_code():
+            return
         self.yields += 1
         me.state = RUNNABLE
         if me.ready_seq is None:
             self._mark_ready(me)
         self._switch_out()
+
+    def _in_trusted_code(self):
+        f = sys._getframe(2)
+        while f is not None:
+            name = f.f_globals.get('__name__', '')
+            if not name.startswith('sim.'):
+                return name.startswith(self.trusted_prefixes)
+            f = f.f_back
+        return False
 
     def block(self, pred, timeout=None, label=None):
         me = self.cur
